@@ -23,7 +23,7 @@ SPEC = {
                   "fault placement, queue size and worker count; the model is stepped along every script the harness runs on the real Tracker and "
                   "compared after every event; the implementation's own observations are checked against the boolean form of the property (codes 10/11/13/14), "
                   "which is proved sound (conv_/inst_/heal_/opts_monitor_sound: a code not produced implies the Prop-level clause at every observation; monitor_shared_state: "
-                  "the monitor's record of the shared state is the model's pinset / last along every script); completeness of these monitors for the model is not proved",
+                  "the monitor's record of the shared state is the model's pinset / last along every script); and complete for the model (tracker_model_passes_monitor: for every queue size, worker count > 0, initial pins and daemon content and every script over the listed cids, the observation trace computed from the model raises no code; monitor_quiescence_agrees: the monitor's observational quiescence is the model's `quiescent`)",
     "level_note": "model tied to code by differential testing (generator-bounded); IPFS connector/daemon behaviour is the assumed contract of C16; "
                   "a cancelled IPFS call is assumed to have no daemon effect",
     "assumptions": ["connector/daemon contract of C16", "a cancelled IPFS call has no effect on the daemon",
